@@ -84,6 +84,9 @@ fn p_text(p: &P, hex_as: bool) -> Option<String> {
     }
     Some(s)
 }
+fn norm_pred(h: HopPredicate) -> HopPredicate {
+    HopPredicate { asn: Some(h.asn.unwrap_or(Asn::WILDCARD)), ..h }
+}
 fn hop_from(v: &Value) -> PathPolicyHop {
     PathPolicyHop {
         isd_asn: IsdAsn::new(Isd(v["isd"].as_u64().unwrap_or(0) as u16), Asn(v["as"].as_u64().unwrap_or(0))),
@@ -185,11 +188,26 @@ fn pat_text(pat: &[E], style: u8, sep: &mut dyn FnMut() -> String, hex: bool) ->
 struct Mon {
     evals: u64,
     pv: Vec<Value>,
+    per_key: std::collections::BTreeMap<String, u64>,
 }
 impl Mon {
+    /// at most 5 reports per canonical key are kept (all are counted)
     fn pv(&mut self, key: String, what: String, replay: Value) {
-        if self.pv.len() < 400 {
+        let n = self.per_key.entry(key.clone()).or_insert(0);
+        *n += 1;
+        if *n <= 5 {
             self.pv.push(json!({"key": key, "what": what, "replay": replay}));
+        }
+    }
+    fn merge(&mut self, other: Mon) {
+        self.evals += other.evals;
+        for p in other.pv {
+            let key = p["key"].as_str().unwrap_or("").to_string();
+            let n = self.per_key.entry(key).or_insert(0);
+            *n += 1;
+            if *n <= 5 {
+                self.pv.push(p);
+            }
         }
     }
 }
@@ -346,7 +364,8 @@ fn replay_case(line: &Value, hs: &[PathPolicyHop], hopdom: &[PathPolicyHop], wle
             // print -> parse round trip of the predicate value
             let shown = built.to_string();
             match vh_core::catch(|| HopPredicate::from_str(&shown)) {
-                Ok(Ok(back)) if back == built => bump("pred_roundtrip_ok", 1),
+                // reading adopted: a predicate without AS and one with the AS wildcard are the same predicate
+                Ok(Ok(back)) if back == built || norm_pred(back) == norm_pred(built) => bump("pred_roundtrip_ok", 1),
                 other => {
                     let key = if p.asn.is_none() && p.ik != "any" { "RoundTrip:predicate-interfaces-without-as" } else { "RoundTrip:predicate" };
                     m.pv(key.into(), format!("hop predicate {built:?} prints as {shown:?}, which parses back to {other:?}"), json!({"pred": p_json(&p), "shown": shown}));
@@ -484,16 +503,63 @@ fn tok_texts(toks: &[Value]) -> (String, String) {
     (spaced, tight)
 }
 
-/// run `f` on its own thread; None when it does not come back in time (the thread is abandoned)
-fn with_watchdog<T: Send + 'static>(f: impl FnOnce() -> T + Send + 'static) -> Option<T> {
-    let (tx, rx) = mpsc::channel();
-    std::thread::Builder::new()
-        .stack_size(64 << 20)
-        .spawn(move || {
-            let _ = tx.send(f());
-        })
-        .ok()?;
-    rx.recv_timeout(WATCHDOG).ok()
+/// Run `f` over all items on a worker thread (one long-lived thread, not one per item); an item whose
+/// evaluation does not come back within the watchdog yields None, the worker is abandoned and a new
+/// one continues with the next item.
+fn run_batch<I: Send + Sync + 'static, R: Send + 'static>(items: Vec<I>, f: fn(&I) -> R) -> Vec<Option<R>> {
+    let items = std::sync::Arc::new(items);
+    let mut out: Vec<Option<R>> = (0..items.len()).map(|_| None).collect();
+    let mut start = 0;
+    while start < items.len() {
+        let (tx, rx) = mpsc::channel();
+        let it = items.clone();
+        let from = start;
+        let spawned = std::thread::Builder::new().stack_size(256 << 20).spawn(move || {
+            for k in from..it.len() {
+                let r = f(&it[k]);
+                if tx.send((k, r)).is_err() {
+                    return;
+                }
+            }
+        });
+        if spawned.is_err() {
+            eprintln!("cannot spawn worker thread");
+            std::process::exit(2);
+        }
+        let mut next = start;
+        loop {
+            match rx.recv_timeout(WATCHDOG) {
+                Ok((k, r)) => {
+                    out[k] = Some(r);
+                    next = k + 1;
+                    if next == items.len() {
+                        break;
+                    }
+                }
+                Err(_) => {
+                    next += 1; // item `next` hangs (or the worker died): leave None, continue after it
+                    break;
+                }
+            }
+        }
+        start = next;
+    }
+    out
+}
+
+struct ReplayItem {
+    line: Value,
+    hs: Vec<PathPolicyHop>,
+    hopdom: Vec<PathPolicyHop>,
+    wlen: usize,
+    seed: u64,
+}
+fn replay_item(it: &ReplayItem) -> (Mon, serde_json::Map<String, Value>) {
+    let mut m = Mon::default();
+    let mut st = serde_json::Map::new();
+    let mut rng = Rng::new(it.seed);
+    replay_case(&it.line, &it.hs, &it.hopdom, it.wlen, &mut m, &mut st, &mut rng);
+    (m, st)
 }
 
 fn replay(cases_path: &str, out_path: &str) {
@@ -502,9 +568,9 @@ fn replay(cases_path: &str, out_path: &str) {
     let mut stats = serde_json::Map::new();
     let mut hs: Vec<PathPolicyHop> = Vec::new();
     let mut hopdom: Vec<PathPolicyHop> = Vec::new();
-    let mut cases = 0u64;
     let mut wlen = 0usize;
     let mut rng = Rng::from_env();
+    let mut items: Vec<ReplayItem> = Vec::new();
     for line in lines {
         if line.get("H").is_some() {
             hs = line["H"].as_array().map(|a| a.iter().map(hop_from).collect()).unwrap_or_default();
@@ -512,33 +578,23 @@ fn replay(cases_path: &str, out_path: &str) {
             wlen = line["wlen"].as_u64().unwrap_or(0) as usize;
             continue;
         }
-        cases += 1;
-        let (h2, d2) = (hs.clone(), hopdom.clone());
-        let l2 = line.clone();
-        let mut r2 = Rng::new(rng.next_u64());
-        let res = with_watchdog(move || {
-            let mut m = Mon::default();
-            let mut st = serde_json::Map::new();
-            replay_case(&l2, &h2, &d2, wlen, &mut m, &mut st, &mut r2);
-            (m, st)
-        });
+        items.push(ReplayItem { line, hs: hs.clone(), hopdom: hopdom.clone(), wlen, seed: rng.next_u64() });
+    }
+    let cases = items.len() as u64;
+    let keep: Vec<Value> = items.iter().map(|i| i.line.clone()).collect();
+    for (k, res) in run_batch(items, replay_item).into_iter().enumerate() {
         match res {
             Some((mc, st)) => {
-                m.evals += mc.evals;
-                for p in mc.pv {
-                    if m.pv.len() < 400 {
-                        m.pv.push(p);
-                    }
-                }
+                m.merge(mc);
                 for (k, v) in st {
                     let e = stats.entry(k).or_insert(json!(0));
                     *e = json!(e.as_u64().unwrap_or(0) + v.as_u64().unwrap_or(0));
                 }
             }
-            None => m.pv("Timeout:case".into(), "parsing/matching one enumerated policy did not finish within the watchdog".into(), line.clone()),
+            None => m.pv("Timeout:case".into(), "parsing/matching one enumerated policy did not finish within the watchdog".into(), keep[k].clone()),
         }
     }
-    let out = json!({"cases": cases, "evals": m.evals, "pv": m.pv, "stats": stats});
+    let out = json!({"cases": cases, "evals": m.evals, "pv": m.pv, "pv_counts": m.per_key, "stats": stats});
     std::fs::write(out_path, serde_json::to_string_pretty(&out).unwrap()).expect("write result");
 }
 
@@ -580,6 +636,33 @@ fn rand_w(rng: &mut Rng, maxlen: u64) -> Vec<PathPolicyHop> {
     w
 }
 
+/// one unit of work for the watchdog worker: texts to parse as patterns and hop sequences to match
+struct TextItem {
+    texts: Vec<String>,
+    ws: Vec<Vec<PathPolicyHop>>,
+    other_parsers: bool,
+}
+type TextResult = (Mon, Vec<Option<Vec<Option<bool>>>>);
+fn text_item(it: &TextItem) -> TextResult {
+    let mut m = Mon::default();
+    let mut vs = Vec::new();
+    for t in &it.texts {
+        let v: Option<Vec<Option<bool>>> =
+            parse_pattern(&mut m, t).map(|pol| it.ws.iter().map(|w| pat_verdict(&mut m, &pol, w, &json!({"pattern_text": t, "w": w_json(w)}))).collect());
+        vs.push(v);
+        if it.other_parsers {
+            m.evals += 2;
+            if let Err(msg) = vh_core::catch(|| AclPolicy::parse(t)) {
+                m.pv("Panic:acl-parse".into(), format!("AclPolicy::parse panics on {t:?}: {msg}"), json!({"kind": "text", "text": t}));
+            }
+            if let Err(msg) = vh_core::catch(|| HopPredicate::from_str(t)) {
+                m.pv("Panic:predicate".into(), format!("HopPredicate::from_str panics on {t:?}: {msg}"), json!({"kind": "text", "text": t}));
+            }
+        }
+    }
+    (m, vs)
+}
+
 fn record(trace_path: &str, out_path: &str) {
     let thorough = vh_core::tier_is_thorough();
     let mut rng = Rng::from_env();
@@ -591,7 +674,9 @@ fn record(trace_path: &str, out_path: &str) {
     let maxdepth = if thorough { 6 } else { 5 };
     let maxw = 12;
     let (mut lines, mut accepted_tok, mut accepted_str) = (0u64, 0u64, 0u64);
+    let mut items: Vec<TextItem> = Vec::new();
     // random deeper patterns
+    let mut pats: Vec<Value> = Vec::new();
     for _ in 0..npat {
         let n = 1 + rng.below(3);
         let pat: Vec<E> = (0..n).map(|_| { let d = rng.below(maxdepth + 1) as u32; rand_expr(&mut rng, d) }).collect();
@@ -605,56 +690,12 @@ fn record(trace_path: &str, out_path: &str) {
         };
         let mut nosep = || String::new();
         let texts = vec![pat_text(&pat, 0, &mut nosep, false), pat_text(&pat, (1 + rng.below(2)) as u8, &mut sep, rng.chance(1, 2))];
-        let pj = Value::Array(pat.iter().map(e_json).collect());
-        let (t2, ws2) = (texts.clone(), ws.clone());
-        let res = with_watchdog(move || {
-            let mut m = Mon::default();
-            let mut vs = Vec::new();
-            for t in &t2 {
-                let v: Option<Vec<Option<bool>>> = parse_pattern(&mut m, t).map(|pol| ws2.iter().map(|w| pat_verdict(&mut m, &pol, w, &json!({"pattern_text": t, "w": w_json(w)}))).collect());
-                vs.push(v);
-            }
-            (m, vs)
-        });
-        let Some((mc, vs)) = res else {
-            m.pv("Timeout:pattern".into(), format!("parsing/matching {:?} did not finish within the watchdog", texts[0]), json!({"kind": "text", "text": texts[0]}));
-            continue;
-        };
-        m.evals += mc.evals;
-        m.pv.extend(mc.pv);
-        for (t, v) in texts.iter().zip(&vs) {
-            match v {
-                None => m.pv("Reject:pattern".into(), format!("the printed form {t:?} of a pattern is rejected by the parser"), json!({"kind": "text", "text": t, "pat": pj})),
-                Some(v) => {
-                    if v.iter().all(|x| x.is_some()) {
-                        tw.write(&json!({"ev": "pat", "text": t, "pat": pj, "ws": ws.iter().map(|w| w_json(w)).collect::<Vec<_>>(), "real": v.iter().map(|x| x.unwrap() as u8).collect::<Vec<_>>()}));
-                        lines += 1;
-                    }
-                }
-            }
-        }
-        if let (Some(a), Some(b)) = (&vs[0], &vs[1]) {
-            if a != b {
-                m.pv("Variants:verdicts".into(), format!("{:?} and {:?} differ only in parentheses/white space/AS notation but give different verdicts", texts[0], texts[1]), json!({"a": texts[0], "b": texts[1]}));
-            }
-        }
-    }
-    // random ACLs (constructor route; entries may have no text form)
-    for _ in 0..nacl {
-        let n = rng.below(7);
-        let a = AclV { entries: (0..n).map(|_| (rng.chance(1, 2), rand_pred(&mut rng, false))).collect(), def: rng.chance(1, 2) };
-        let built = acl_build(&a);
-        let mut ws: Vec<Vec<PathPolicyHop>> = (0..6).map(|_| rand_w(&mut rng, maxw)).collect();
-        ws.push(vec![]);
-        let pj = acl_json(&a);
-        let v: Vec<Option<bool>> = ws.iter().map(|w| acl_verdict(&mut m, &built, w, &json!({"acl": pj, "w": w_json(w)}))).collect();
-        if v.iter().all(|x| x.is_some()) {
-            tw.write(&json!({"ev": "acl", "acl": pj, "ws": ws.iter().map(|w| w_json(w)).collect::<Vec<_>>(), "real": v.iter().map(|x| x.unwrap() as u8).collect::<Vec<_>>()}));
-            lines += 1;
-        }
+        pats.push(Value::Array(pat.iter().map(e_json).collect()));
+        items.push(TextItem { texts, ws, other_parsers: false });
     }
     // random token strings: syntax and meaning
     let tok_pool = ["p", "p", "p", "or", "opt", "plus", "star", "lp", "rp"];
+    let mut tokss: Vec<Vec<Value>> = Vec::new();
     for _ in 0..ntok {
         let n = rng.below(13);
         let mut depth = 0i32;
@@ -678,58 +719,74 @@ fn record(trace_path: &str, out_path: &str) {
         let (spaced, tight) = tok_texts(&toks);
         let t = if rng.chance(1, 2) { spaced } else { tight };
         let ws: Vec<Vec<PathPolicyHop>> = (0..5).map(|_| rand_w(&mut rng, 8)).collect();
-        let (t2, ws2) = (t.clone(), ws.clone());
-        let res = with_watchdog(move || {
-            let mut m = Mon::default();
-            let v: Option<Vec<Option<bool>>> = parse_pattern(&mut m, &t2).map(|pol| ws2.iter().map(|w| pat_verdict(&mut m, &pol, w, &json!({"pattern_text": t2, "w": w_json(w)}))).collect());
-            (m, v)
-        });
-        let Some((mc, v)) = res else {
-            m.pv("Timeout:pattern".into(), format!("parsing/matching {t:?} did not finish within the watchdog"), json!({"kind": "text", "text": t}));
-            continue;
-        };
-        m.evals += mc.evals;
-        m.pv.extend(mc.pv);
-        let ok = v.is_some();
-        if ok {
-            accepted_tok += 1;
-        }
-        let real: Vec<u8> = v.map(|v| v.iter().map(|x| x.unwrap_or(false) as u8).collect()).unwrap_or_default();
-        tw.write(&json!({"ev": "tok", "text": t, "ts": toks, "ok": ok, "ws": if ok { ws.iter().map(|w| w_json(w)).collect::<Vec<_>>() } else { vec![] }, "real": real}));
-        lines += 1;
+        tokss.push(toks);
+        items.push(TextItem { texts: vec![t], ws, other_parsers: false });
     }
     // random character strings: totality of lexer, parser, error report, and of the ACL / predicate parsers
     let chars: Vec<char> = "0123-#,:|?+*()!& \t\nx\u{e9}\u{1f600}".chars().collect();
     for _ in 0..nstr {
         let n = rng.below(24);
         let s: String = (0..n).map(|_| *rng.pick(&chars)).collect();
-        let s2 = s.clone();
-        let res = with_watchdog(move || {
-            let mut m = Mon::default();
-            let acc = parse_pattern(&mut m, &s2).is_some();
-            if let Err(msg) = vh_core::catch(|| AclPolicy::parse(&s2)) {
-                m.pv("Panic:acl-parse".into(), format!("AclPolicy::parse panics on {s2:?}: {msg}"), json!({"kind": "text", "text": s2}));
-            }
-            if let Err(msg) = vh_core::catch(|| HopPredicate::from_str(&s2)) {
-                m.pv("Panic:predicate".into(), format!("HopPredicate::from_str panics on {s2:?}: {msg}"), json!({"kind": "text", "text": s2}));
-            }
-            (m, acc)
-        });
-        match res {
-            Some((mc, acc)) => {
-                m.evals += 3;
-                m.pv.extend(mc.pv);
-                if acc {
-                    accepted_str += 1;
+        items.push(TextItem { texts: vec![s], ws: vec![], other_parsers: true });
+    }
+    let keep: Vec<(Vec<String>, Vec<Vec<PathPolicyHop>>)> = items.iter().map(|i| (i.texts.clone(), i.ws.clone())).collect();
+    let results = run_batch(items, text_item);
+    for (k, res) in results.into_iter().enumerate() {
+        let (texts, ws) = &keep[k];
+        let Some((mc, vs)) = res else {
+            m.pv("Timeout:pattern".into(), format!("parsing/matching {:?} did not finish within the watchdog", texts[0]), json!({"kind": "text", "text": texts[0]}));
+            continue;
+        };
+        m.merge(mc);
+        let wsj: Vec<Value> = ws.iter().map(|w| w_json(w)).collect();
+        if (k as u64) < npat {
+            let pj = &pats[k];
+            for (t, v) in texts.iter().zip(&vs) {
+                match v {
+                    None => m.pv("Reject:pattern".into(), format!("the printed form {t:?} of a pattern is rejected by the parser"), json!({"kind": "text", "text": t, "pat": pj})),
+                    Some(v) => {
+                        if v.iter().all(|x| x.is_some()) {
+                            tw.write(&json!({"ev": "pat", "text": t, "pat": pj, "ws": wsj, "real": v.iter().map(|x| x.unwrap() as u8).collect::<Vec<_>>()}));
+                            lines += 1;
+                        }
+                    }
                 }
             }
-            None => m.pv("Timeout:pattern".into(), format!("parsing {s:?} did not finish within the watchdog"), json!({"kind": "text", "text": s})),
+            if let (Some(a), Some(b)) = (&vs[0], &vs[1]) {
+                if a != b {
+                    m.pv("Variants:verdicts".into(), format!("{:?} and {:?} differ only in parentheses/white space/AS notation but give different verdicts", texts[0], texts[1]), json!({"a": texts[0], "b": texts[1]}));
+                }
+            }
+        } else if (k as u64) < npat + ntok {
+            let toks = &tokss[k - npat as usize];
+            let ok = vs[0].is_some();
+            if ok {
+                accepted_tok += 1;
+            }
+            let real: Vec<u8> = vs[0].as_ref().map(|v| v.iter().map(|x| x.unwrap_or(false) as u8).collect()).unwrap_or_default();
+            tw.write(&json!({"ev": "tok", "text": texts[0], "ts": toks, "ok": ok, "ws": if ok { wsj } else { vec![] }, "real": real}));
+            lines += 1;
+        } else if vs[0].is_some() {
+            accepted_str += 1;
+        }
+    }
+    // random ACLs (constructor route; entries may have no text form)
+    for _ in 0..nacl {
+        let n = rng.below(7);
+        let a = AclV { entries: (0..n).map(|_| (rng.chance(1, 2), rand_pred(&mut rng, false))).collect(), def: rng.chance(1, 2) };
+        let built = acl_build(&a);
+        let mut ws: Vec<Vec<PathPolicyHop>> = (0..6).map(|_| rand_w(&mut rng, maxw)).collect();
+        ws.push(vec![]);
+        let pj = acl_json(&a);
+        let v: Vec<Option<bool>> = ws.iter().map(|w| acl_verdict(&mut m, &built, w, &json!({"acl": pj, "w": w_json(w)}))).collect();
+        if v.iter().all(|x| x.is_some()) {
+            tw.write(&json!({"ev": "acl", "acl": pj, "ws": ws.iter().map(|w| w_json(w)).collect::<Vec<_>>(), "real": v.iter().map(|x| x.unwrap() as u8).collect::<Vec<_>>()}));
+            lines += 1;
         }
     }
     tw.finish();
-    m.pv.truncate(400);
     let out = json!({"lines": lines, "evals": m.evals, "patterns": npat, "acls": nacl, "token_strings": ntok, "token_strings_accepted": accepted_tok,
-        "char_strings": nstr, "char_strings_accepted": accepted_str, "pv": m.pv});
+        "char_strings": nstr, "char_strings_accepted": accepted_str, "pv": m.pv, "pv_counts": m.per_key});
     std::fs::write(out_path, serde_json::to_string_pretty(&out).unwrap()).expect("write result");
 }
 
